@@ -10,6 +10,7 @@
     internal/data_model/ch_arg_minmax_string.go ArgMinMaxStringFloat32.ReadFrom
     internal/chutil/tdigest.go                  ColTDigest.DecodeColumn (the byte reader; the digest itself is hrissan/tdigest)
     internal/chutil/unique.go + ch_unique.go    ColUnique.DecodeColumn / ChUnique.ReadFrom, ChUnique.MarshallAppend
+    internal/chutil/tdigest.go, unique.go       ColTDigest / ColUnique Reset + DecodeColumn over several result blocks (objects by reference)
     internal/data_model/transfer.go             KeyFromStatshouseMultiItem, MergeWithTLMultiItem, MergeWithTL2, MergeWithTLItem2
     internal/data_model/bucket.go               GetOrCreateMultiItem (identity = Key.MarshalAppend bytes), MapStringTopBytes,
                                                 FinishStringTop, MultiValue.Merge, ItemValue.Merge
@@ -324,6 +325,85 @@ def readUnique (bs : Bytes) : Option (USt × Bytes) :=
         | Option.none => Option.none
         | some (xs, r2) =>
           some ({ alloc := true, k := sd.toNat, cnt := ic, hasZero := xs.any (· == 0), vals := xs.filter (· != 0) }, r2)
+
+/-! ### result columns that hand out references: ColTDigest ([]*tdigest.TDigest), ColUnique ([]ChUnique, tables by reference)
+
+  ch-go drives one column object through every block of a result: `Reset()`, then `DecodeColumn(r, rows)`. The API keeps
+  what a block handed out (`dst.percentile = c.percentile[x]`, `dst.unique = c.unique[x]`) while later blocks are decoded.
+  Objects live in a heap addressed by allocation index; the column's backing array holds references. -/
+
+/-- `Reset()` of the column: `.drop` = `*col = nil` (the code), `.keep` = `*col = (*col)[:0]` (backing array and its objects stay) -/
+inductive ResetV | drop | keep
+deriving DecidableEq, Repr
+
+/-- store one decoded value through a slot: a slot that already references an object which can take the value is refilled
+    IN PLACE (`res[i].Reset()` + AddCentroid / ReadFrom into the old table), otherwise a new object is allocated -/
+def storeSlot {α : Type} (reuse : α → α → Bool) (heap : List α) (slot : Option Nat) (v : α) : List α × Nat :=
+  match slot with
+  | some r =>
+    match heap[r]? with
+    | some old => if reuse old v then (heap.set r v, r) else (heap ++ [v], heap.length)
+    | Option.none => (heap ++ [v], heap.length)
+  | Option.none => (heap ++ [v], heap.length)
+
+/-- DecodeColumn over the offered slots: the new heap and the references handed out for the rows of this block -/
+def decodeBlock {α : Type} (reuse : α → α → Bool) : List α → List (Option Nat) → List α → List α × List Nat
+  | heap, _, [] => (heap, [])
+  | heap, slots, v :: vs =>
+    let r := storeSlot reuse heap slots.head?.join v
+    let q := decodeBlock reuse r.1 slots.tail vs
+    (q.1, r.2 :: q.2)
+
+/-- the slots DecodeColumn(rows) works on after Reset(): none when the backing array was dropped or is too short (`make`) -/
+def offered (rv : ResetV) (backing : List (Option Nat)) (rows : Nat) : List (Option Nat) :=
+  match rv with
+  | .drop => []
+  | .keep => if backing.length < rows then [] else backing
+
+structure ColState (α : Type) where
+  heap : List α
+  backing : List (Option Nat)
+  retained : List Nat        -- references the reader kept, block after block
+
+def ColState.init {α : Type} : ColState α := ⟨[], [], []⟩
+
+/-- one result block: Reset, DecodeColumn, the reader keeps every reference of the block -/
+def colBlock {α : Type} (rv : ResetV) (reuse : α → α → Bool) (st : ColState α) (vs : List α) : ColState α :=
+  let off := offered rv st.backing vs.length
+  let r := decodeBlock reuse st.heap off vs
+  { heap := r.1, backing := r.2.map some ++ off.drop vs.length, retained := st.retained ++ r.2 }
+
+def colBlocks {α : Type} (rv : ResetV) (reuse : α → α → Bool) (blocks : List (List α)) : ColState α :=
+  blocks.foldl (colBlock rv reuse) ColState.init
+
+/-- what the reader sees in the rows it kept, after the last block -/
+def readBack {α : Type} (st : ColState α) : List (Option α) := st.retained.map (fun r => st.heap[r]?)
+
+/-- a *tdigest.TDigest slot is always refilled in place -/
+def tdReuse (_ _ : List (Nat × Nat)) : Bool := true
+
+/-- one block of a percentile column: `rows` centroid lists -/
+def readCentroidsCol : Nat → Bytes → Option (List (List (Nat × Nat)) × Bytes)
+  | 0, bs => some ([], bs)
+  | n + 1, bs =>
+    match readCentroids bs with
+    | Option.none => Option.none
+    | some (c, r1) =>
+      match readCentroidsCol n r1 with
+      | Option.none => Option.none
+      | some (l, r2) => some (c :: l, r2)
+
+/-- one block of a uniq column -/
+def readUniqueCol : Nat → Bytes → Option (List USt × Bytes)
+  | 0, bs => some ([], bs)
+  | n + 1, bs =>
+    match readUnique bs with
+    | Option.none => Option.none
+    | some (u, r1) =>
+      match readUniqueCol n r1 with
+      | Option.none => Option.none
+      | some (l, r2) => some (u :: l, r2)
+
 
 /-! ### ItemValue / MultiValue and the merge of one TL value (MergeWithTL2) -/
 
